@@ -1,1 +1,2 @@
-
+//! Harness library: shared machinery for the checks that link the real rustrtc crate.
+pub use vcore::*;
